@@ -119,7 +119,7 @@ NSX = M + "/pkg/nsx.VerifNSX"
 
 PROPS["C01"] = {
     "explanation": _cisco_level + " C01 (ASA): interface ACL with plain lines and lines referencing network object-groups (solver-chosen members), device groups with generated names, left-over generated group, unmanaged group; the script is executed on an ASA model ('line N' inserts/deletes, joined moves, object-group member edits, transfers with fresh -DRC- names, rebinding of access-group, clear configure); final ACL must filter like the target with groups expanded, second compare silent, 'no change' only for an equivalent device.",
-    "bounds": {"quick": "ASA: 1 interface ACL, device lines n<=2, target lines 1<=m<=2, 6 plain lines + permit/deny lines referencing 1 object-group per side with 1..2 members of 3 hosts, left-over generated group, unmanaged group, 8 packet classes",
+    "bounds": {"quick": "ASA: 1 interface ACL, device lines n<=2, target lines 1<=m<=2, 6 plain lines + permit/deny lines referencing 1 object-group per side with 1..2 members of 3 hosts, left-over generated group, unmanaged group, 8 packet classes; two single-member groups per side with a menu of 4 lines",
                "thorough": "as quick with 2 object-groups per side (group reuse, identical groups, split groups); n,m<=3 with 1 group"},
     "outside": "dynamic crypto maps, ikev2 proposals, webvpn anchors, VPN objects beyond the one user chain of the graph harness, service/protocol object-groups, several ACLs and interfaces, IPv6, sizes above the bounds, real device behaviour beyond the model's rules",
     "selftest": "asa_(acl|parse)", "selftest_thorough": "asa_",
@@ -128,6 +128,7 @@ PROPS["C01"] = {
          "extra": {"maxpaths": 3000000},
          "covers": ["move emitted (joined delete+add)", "object-group membership edited", "changes emitted", "no change reported"]},
         {"entry": ASA_ACL, "quick": {"N": "1", "K": "8", "G": "1"}, "thorough": {"N": "3", "K": "6", "G": "1"}, "extra": {"maxpaths": 3000000}},
+        {"entry": ASA_ACL, "quick": {"N": "2", "K": "4", "G": "2", "members": "1"}, "thorough": {"N": "2", "K": "4", "G": "2", "members": "1"}, "extra": {"maxpaths": 3000000}},
         dict(_graph_run, covers=["managed VPN user on device", "VPN user in target", "changes emitted", "no change reported"]),
         _graph_cert, _graph_dmz, _graph_crypto, RT_ASA,
     ],
@@ -135,7 +136,7 @@ PROPS["C01"] = {
 PROPS["C01"]["explanation"] += _graph_text + _rt_text
 PROPS["C04"] = {
     "explanation": "Bounded symbolic execution (gosx) of the real nsx.diffConfig -> sortGroups, addNewServices, genUniqGroupNames, diffPolicies, genUniqRuleNames, sortRules, (rulesPair).Equal/diffRules (myers.Diff), adaptGroup, findGroupOnDevice, equalizeGroups, writeRule, removeUnusedServices/Groups on NsxConfig structures with solver-chosen rule fields and group address lists; JSON bodies are kept structurally (Blob) by the json stub; the REST calls are executed on a model of the manager; resulting rules must equal the target's with groups compared by address set, no left-over Netspoc service/group, second compare silent.",
-    "bounds": {"quick": "1 policy, n,m<=2 rules per side (action, source literal or group), 1 group id per side with 1..2 of 4 addresses, service changed in place, unused Netspoc group on device, one sequence number",
+    "bounds": {"quick": "1 policy, n,m<=2 rules per side (action, source literal or group), 1 group id per side with 1..2 of 4 addresses, service changed in place, unused Netspoc group on device, one sequence number; two group ids per side with single-address groups",
                "thorough": "2 group ids per side (renamed/shared/duplicated groups), 2 sequence numbers"},
     "outside": "several policies, destination groups, services per rule other than one shared reference, sizes above the bounds, HTTP layer (see C09), JSON text level",
     "selftest": "nsx", "selftest_thorough": "nsx",
@@ -143,6 +144,7 @@ PROPS["C04"] = {
         {"entry": NSX, "quick": {"N": "2", "G": "1", "seqs": "1"}, "thorough": {"N": "2", "G": "2", "seqs": "1"}, "extra": {"maxpaths": 5000000},
          "covers": ["incremental group edit", "changes emitted", "no change reported"]},
         {"entry": NSX, "quick": {"N": "1", "G": "1", "seqs": "2"}, "thorough": {"N": "2", "G": "1", "seqs": "2"}},
+        {"entry": NSX, "quick": {"N": "2", "G": "2", "members": "1", "seqs": "1"}, "thorough": {"N": "2", "G": "2", "members": "1", "seqs": "2"}, "extra": {"maxpaths": 5000000}},
     ],
 }
 PROPS["C07"] = {
